@@ -155,21 +155,33 @@ def mod_queries(sn, tier, algebra):
 
 def real_queries(tier):
     qs = []
+    # 8192-byte bitmap: byte loops of the mem stubs; without --arrays-uf-always CBMC bit-blasts the whole object per
+    # symbolic-index update and does not finish
     big = {"memcpy.0": 8200, "memset.0": 8200}
 
     def Rq(name, op, sd, w=2, to=600):
         d = dict(sd); d["OP"] = op
         qs.append(Query("real-%s" % name, "bitmap/real.c", UNITS, defs=d, unwind=10, unwindset=big if sd.get("T1") == 1 else None,
-                        timeout=to, weight=w))
+                        timeout=to, weight=w, extra=["--arrays-uf-always"] if sd.get("T1") == 1 else []))
 
-    OPN = {0: "observe", 1: "add", 2: "remove", 3: "clear", 4: "clone", 5: "encdec", 10: "addrange", 11: "removerange"}
+    OPN = {0: "observe", 1: "add", 2: "remove", 3: "clear", 4: "clone", 5: "encdec", 10: "addrange-empty"}
     cards = (0, 1, 2, 4) if tier == "quick" else (0, 1, 2, 3, 4)
     for card in cards:
         for cap in sorted({card, 16}) if tier != "quick" else (card,) if card else (0, 16):
             for op in OPN:
+                if op == 10 and card:
+                    continue
                 Rq("%s-A%dc%d" % (OPN[op], card, cap), op, {"T1": 0, "CARD1": card, "CAP1": cap})
+    # AddRange / RemoveRange of length <= ARRAY_MAX + 4 (incl. just longer than ARRAY_MAX on non-empty sets), callee replaced
+    for n, sd in (("A0c0", {"T1": 0, "CARD1": 0, "CAP1": 0}), ("A1c1", {"T1": 0, "CARD1": 1, "CAP1": 1}),
+                  ("A4c4", {"T1": 0, "CARD1": 4, "CAP1": 4}), ("R0", {"T1": 2, "NR1": 0, "RCAP1": 1}),
+                  ("R1", {"T1": 2, "NR1": 1, "RCAP1": 1}), ("R2", {"T1": 2, "NR1": 2, "RCAP1": 2})):
+        for op, on, loop in ((12, "addrange", "varintBitmapAddRange.0"), (13, "removerange", "varintBitmapRemoveRange.0")):
+            qs.append(Query("real-%s-mod-%s" % (on, n), "bitmap/real.c", UNITS, defs=dict(sd, OP=op), unwind=10,
+                            unwindset={loop: 4102}, timeout=900, weight=6,
+                            replace_calls={"varintBitmapAdd": "contract_add_real", "varintBitmapRemove": "contract_remove_real"}))
     for card in (0, 1, 2):
-        for op in OPN:
+        for op in (0, 1, 2):    # whole-object operations on 8192 symbolic-index bytes do not finish (covered scaled)
             Rq("%s-B%d" % (OPN[op], card), op, {"T1": 1, "CARD1": card}, w=4)
     for op in OPN:
         Rq("%s-R0" % OPN[op], op, {"T1": 2, "NR1": 0, "RCAP1": 1})
@@ -177,7 +189,7 @@ def real_queries(tier):
         for op in (0, 3, 4, 5):
             Rq("%s-R%d" % (OPN[op], nr), op, {"T1": 2, "NR1": nr, "RCAP1": nr})
         for k in range(nr, 5 if tier != "quick" else 4):
-            for op in (1, 2, 10, 11):
+            for op in (1, 2):
                 Rq("%s-R%d-card%d" % (OPN[op], nr, k), op, {"T1": 2, "NR1": nr, "RCAP1": nr, "CCARD1": k})
     return qs
 
